@@ -32,6 +32,7 @@ func Main(extra func(args []string) (int, bool)) {
 		fs.StringVar(&a.Out, "out", "", "")
 		fs.StringVar(&a.Progress, "progress", "", "")
 		fs.Float64Var(&a.CPUMul, "cpumul", 0, "")
+		fs.IntVar(&a.Max, "max", 0, "")
 		fs.BoolVar(&a.Race, "race", false, "")
 		fs.BoolVar(&a.Verbose, "v", false, "")
 		_ = fs.Parse(os.Args[2:])
